@@ -155,6 +155,24 @@ class Screen:
             out.pop()
         return out
 
+    def raw_text(self):
+        """all rows, top to bottom, each padded to the full width (so that text wrapped at the margin is contiguous)"""
+        if not self.rows:
+            return ""
+        out = []
+        for r in range(min(self.rows), max(self.rows) + 1):
+            row = self.rows.get(r, [None] * self.W)
+            s = []
+            for cell in row:
+                if cell is None:
+                    s.append(" ")
+                elif cell == "cont":
+                    continue
+                else:
+                    s.append(chr(cell[0]) + "".join(chr(x) for x in cell[1]))
+            out.append("".join(s))
+        return "".join(out)
+
     def cursor(self):
         """the cell the cursor is shown on"""
         return (self.r, self.c)
